@@ -3,3 +3,7 @@
 import os, sys
 sys.path.insert(0, os.path.dirname(os.path.abspath(__file__)))
 os.makedirs(os.path.join(os.path.dirname(os.path.abspath(__file__)), '..', 'coq', 'Gen'), exist_ok=True)
+import subprocess
+_here = os.path.dirname(os.path.abspath(__file__))
+for _t in sorted(f for f in os.listdir(_here) if f.endswith('2coq.py')):
+    subprocess.check_call([sys.executable, os.path.join(_here, _t)])
